@@ -354,8 +354,9 @@ fn int_part(cx: &mut Cx, victim: NodeId, h: Arc<Honest>, which: usize) {
             // proportional to n, so the values in between are left to the size sweeps)
             if c <= l + 2 || c >= usize::MAX - 1 {
                 let h2 = h.clone();
-                let idx = if c == usize::MAX - 1 { continue } else { 0 };
-                add(cx, "update_signature", format!("n={c}"), c.min(64) as u64, Box::new(move || api::update(s, &h2.sk, &h2.sig, &h2.msgs[0], b"new", idx, c).is_ok()));
+                add(cx, "update_signature", format!("n={c}"), c.min(64) as u64, Box::new(move || api::update(s, &h2.sk, &h2.sig, &h2.msgs[0], b"new", 0, c).is_ok()));
+                // (index n - 1 for the huge counts would derive 2^64 generators: work proportional to the index, not exercised)
+                if c == usize::MAX - 1 { continue; }
                 let h2 = h.clone();
                 add(cx, "update_signature", format!("n={c},update_index=n-1"), c.min(64) as u64, Box::new(move || api::update(s, &h2.sk, &h2.sig, &h2.msgs[0], b"new", c.wrapping_sub(1), c).is_ok()));
             }
